@@ -423,13 +423,17 @@ def check_parameter(res, step, world: World, tbs, pid, body):
                 res.violate("C20.listing", step, parameter=pid, date=d, api=api, engine=node(d))
                 return
     elif "brackets" in body:
-        for d, brackets in body["brackets"].items():
+        listed = body["brackets"]
+        # at every listed date and at probe dates: the entry in force is the scale the engine uses
+        for d in list(listed) + probes:
+            cands = sorted(k for k in listed if k <= d)
+            brackets = listed[cands[-1]] if cands else None
             sc = node(d)
             want = {float(t): float(r) for t, r in zip(sc.thresholds, sc.rates)}
             got = {float(t): (None if r is None else float(r)) for t, r in (brackets or {}).items()}
             got = {t: r for t, r in got.items() if r is not None}
             if got != want:
-                res.violate("C20.listing", step, parameter=pid, date=d, api=got, engine=want)
+                res.violate("C20.listing", step, parameter=pid, date=d, entry_in_force=cands[-1] if cands else None, api=got, engine=want)
                 return
 
 
